@@ -42,7 +42,50 @@ fn fields(u: &Uri) -> String {
     )
 }
 
+/// `--ctor`: every URI of stdin x every operation code the crate knows: the printer-uri the REAL request
+/// constructor writes, next to what the REAL canonicaliser gives for the same target. Used only to confirm
+/// (or not) a structural finding of the constructor data-flow check.
+fn ctor_mode() {
+    use ipp::prelude::*;
+    use num_traits::FromPrimitive;
+    let stdin = std::io::stdin();
+    for line in stdin.lock().lines() {
+        let line = line.unwrap();
+        let Ok(u) = line.parse::<Uri>() else { continue };
+        let want = ipp::util::canonicalize_uri(&u);
+        for code in 0u16..=0x4100 {
+            let Some(op) = Operation::from_u16(code) else { continue };
+            let r = IppRequestResponse::new(IppVersion::v1_1(), op, Some(u.clone()));
+            let got = r
+                .attributes()
+                .groups_of(DelimiterTag::OperationAttributes)
+                .next()
+                .and_then(|g| g.attributes().get(IppAttribute::PRINTER_URI))
+                .map(|a| match a.value() {
+                    IppValue::Uri(s) => s.clone(),
+                    other => format!("<not a uri value: {}>", other),
+                });
+            let got_fields = match got.as_deref().map(|g| g.parse::<Uri>()) {
+                Some(Ok(g)) => fields(&g),
+                _ => "null".into(),
+            };
+            println!(
+                "{{\"input\":{},\"op\":{},\"uri\":{},\"got\":{},\"got_fields\":{},\"want\":{}}}",
+                esc(&line),
+                code,
+                fields(&u),
+                opt(got.as_deref()),
+                got_fields,
+                esc(&want.to_string())
+            );
+        }
+    }
+}
+
 fn main() {
+    if std::env::args().any(|a| a == "--ctor") {
+        return ctor_mode();
+    }
     let stdin = std::io::stdin();
     for line in stdin.lock().lines() {
         let line = line.unwrap();
